@@ -153,16 +153,20 @@ func checkQuery(rt *rapid.T, st *stats.Collector, c *tcase, s *fx.Sess, q *query
 	}
 	steerAround(st, q)
 	ordSQL := q.ordered()
-	pl := planLabel(s.Plan(ordSQL))
+	plan := s.Plan(ordSQL)
+	if skipByPlan(st, q, plan) {
+		return true
+	}
+	pl := planLabel(plan)
 	st.Class(pl)
 	ro := s.Exec(ordSQL)
 
 	fail := func(what string) {
-		if suppressed(st, q, ro) {
+		if suppressed(st, q, plan, ro) {
 			return
 		}
 		rt.Fatalf("C04 violated: %s\n-- set-up\n%s\n-- query\n%s;\n-> %s\n-- the same query without ORDER BY / LIMIT\n%s;\n-> %s\n-- plan\n%s%s",
-			what, c, ordSQL, ro, baseSQL, rb, s.Plan(ordSQL), ro.Stack)
+			what, c, ordSQL, ro, baseSQL, rb, plan, ro.Stack)
 	}
 	if ro.TimedOut {
 		rt.Fatalf("statement timed out: %s\n%s", c, ordSQL)
